@@ -248,7 +248,9 @@ func c16Machine(t *rapid.T, kind string) {
 	t.Repeat(map[string]func(*rapid.T){
 		"setCounter": func(t *rapid.T) {
 			s := suts[rapid.IntRange(0, len(suts)-1).Draw(t, "s")]
-			v := rapid.IntRange(1, 2000).Draw(t, "v")
+			// small numbers mostly; also values at the 32-bit boundaries and a very large one
+			// (increments after those stay far from the integer limit)
+			v := rapid.OneOf(rapid.IntRange(1, 2000), rapid.IntRange(1, 2000), rapid.SampledFrom([]int{2147483646, 2147483647, 2147483648, 4294967295, 4294967296, 999999999999, 4611686018427387904})).Draw(t, "v")
 			if rapid.Bool().Draw(t, "sender") {
 				trace = append(trace, fmt.Sprintf("%d.SetNextSender(%d)", idx(suts, s), v))
 				if err := s.st.SetNextSenderMsgSeqNum(v); err != nil {
